@@ -2,11 +2,15 @@
 package main
 
 import (
+	"context"
 	"encoding/json"
 	"fmt"
 	"os"
+	"path/filepath"
 	"strings"
 	"time"
+
+	el "github.com/hashicorp/eventlogger"
 
 	"verif/vrt"
 
@@ -15,6 +19,46 @@ import (
 )
 
 const prop = "C08"
+
+// writeFault: every write to the active file fails (ENOSPC); an event that is
+// acknowledged must nevertheless be present somewhere, so Process must not succeed.
+func writeFault(job hk.Job) *hk.Result {
+	res := &hk.Result{}
+	scratch := os.Getenv("VERIF_SCRATCH")
+	os.MkdirAll(scratch, 0o755)
+	for _, ts := range []bool{false, true} {
+		for _, pre := range []int{0, 2} {
+			dir, _ := os.MkdirTemp(scratch, "wf")
+			sub := filepath.Join(dir, "logs")
+			fs := &el.FileSink{Path: sub, FileName: "audit.log", TimestampOnlyOnRotate: ts}
+			e := func(s string) *el.Event {
+				return &el.Event{Type: "t", Formatted: map[string][]byte{el.JSONFormat: []byte(s)}}
+			}
+			acked := 0
+			for i := 0; i < pre; i++ {
+				if _, err := fs.Process(context.Background(), e("good\n")); err == nil {
+					acked++
+				}
+			}
+			// swap the active file for a link to /dev/full and make the sink reopen it
+			os.MkdirAll(sub, 0o755)
+			os.Remove(filepath.Join(sub, "audit.log"))
+			os.Symlink("/dev/full", filepath.Join(sub, "audit.log"))
+			fs.Reopen()
+			_, err := fs.Process(context.Background(), e("lost-event\n"))
+			res.Add("execs", 1)
+			res.Add("steps", int64(pre+2))
+			res.Add("nodes", 1)
+			res.Outcome(fmt.Sprintf("write-fault ts=%v pre=%d err=%v", ts, pre, err != nil))
+			if err == nil {
+				res.Violations = append(res.Violations, hk.Viol{Scn: job.Scn, Name: "write fault", Kind: "oracle",
+					Detail: fmt.Sprintf("Process acknowledged an event although every write to the active file failed (ENOSPC, first attempt and retry): the acknowledged event is in no file (TimestampOnlyOnRotate=%v, %d earlier events)", ts, pre)})
+			}
+			os.RemoveAll(dir)
+		}
+	}
+	return res
+}
 
 func main() {
 	hk.Main(&hk.Check{
@@ -32,10 +76,14 @@ func main() {
 			for _, c := range hn.FSConcScenarios(tier) {
 				n = append(n, c.Name)
 			}
+			n = append(n, "persistent write fault (active file is a symbolic link to /dev/full)")
 			return n
 		},
 		SplitScenario: func(tier string, scn int) bool { return scn >= len(hn.FSJobList(tier)) },
 		RunJob: func(tier string, job hk.Job, deadline time.Time) *hk.Result {
+			if nj := len(hn.FSJobList(tier)); job.Scn == nj+len(hn.FSConcScenarios(tier)) {
+				return writeFault(job)
+			}
 			if nj := len(hn.FSJobList(tier)); job.Scn >= nj {
 				sc := hn.FSConcScenarios(tier)[job.Scn-nj]
 				scratch := os.Getenv("VERIF_SCRATCH")
@@ -58,7 +106,7 @@ func main() {
 		Assumptions: []string{
 			"kill model: each effect of the sink is one system call and an append of <=200 bytes to a regular file is not torn by SIGKILL, so the states between consecutive calls are all the crash states",
 			"concurrent scenarios: <=3 writers + 1 Reopen thread, preemption bound 1-3; 8 writers of the statement are not reached",
-			"write errors are outside this property's quantifier",
+			"write faults: only the persistent one (symbolic link to /dev/full) is injected: an acknowledged event must be present, so Process must not succeed when nothing could be written",
 		},
 		QuickBudget:    150 * time.Second,
 		ThoroughBudget: 45 * time.Minute,
